@@ -435,6 +435,8 @@ type pipeRun struct {
 	// destination held when this pipe was created; a pipe that was re-created is superseded: its observation is
 	// frozen (what the destination held, per source, right before the re-creation)
 	heldDel bool // deleted while one of its workers stood between its journal write and saveState
+	// a deleted pipe that the server lists again after a clean restart, and whether something matching was written since
+	resurrected, writtenSinceBack bool
 	// per source: index in the source's history of the record whose copy the destination refuses (-1: none), the length
 	// of the history when the request with that record was written, and the restarts + writes since
 	blocked    []int
@@ -1174,6 +1176,30 @@ func (r *runner) run() error {
 					}
 				}
 			}
+			// a deleted pipe stays deleted: the registry the start read was saved without it (also when that left it empty)
+			listed := map[string]bool{}
+			for _, q := range r.srv.Pipes.GetPipes() {
+				listed[q.Name] = true
+			}
+			for _, p := range r.pipes {
+				if !p.created || !p.deleted || p.superseded {
+					continue
+				}
+				for s := range sc.Sources {
+					if p.def.Match[s] {
+						p.ops[s] = append(p.ops[s], "SRestart")
+					}
+				}
+				alive := false
+				for _, q := range r.livePipes() {
+					if q.def.Name == p.def.Name {
+						alive = true
+					}
+				}
+				if listed[p.def.Name] && !alive {
+					p.resurrected = true
+				}
+			}
 		case "wave":
 			newBySrc := map[int][]Ev{}
 			bySrc := map[int][]Batch{}
@@ -1424,6 +1450,9 @@ func (r *runner) run() error {
 					}
 					if p.deleted {
 						p.postDel = true
+						if p.resurrected {
+							p.writtenSinceBack = true
+						}
 					}
 					opn := "SWriteLate"
 					if st.FlushFirst {
@@ -1933,9 +1962,26 @@ func (r *runner) finish() ([]Case, error) {
 			if err != nil {
 				return nil, err
 			}
+			if p.deleted && p.resurrected && p.writtenSinceBack {
+				// the pipe is registered again: give it the time to copy what was written since
+				WaitFor(deadline, func() bool {
+					r.syncDst()
+					d, err := readDst(r.srv, p.def.Name)
+					return err == nil && len(d) > p.dstAtDel
+				})
+				if dst, err = readDst(r.srv, p.def.Name); err != nil {
+					return nil, err
+				}
+			}
 			all = r.attribute(p, dst)
 			if p.deleted && p.postDel && len(dst) != p.dstAtDel {
-				r.fail("pipe-copied-after-delete", fmt.Sprintf("pipe %s: destination grew from %d to %d events after DELETE PIPE", p.def.Name, p.dstAtDel, len(dst)))
+				back := ""
+				if p.resurrected {
+					back = "; the server lists the pipe again since the clean restart that followed its deletion"
+				}
+				r.fail("pipe-copied-after-delete", fmt.Sprintf("pipe %s: destination grew from %d to %d events after DELETE PIPE%s", p.def.Name, p.dstAtDel, len(dst), back))
+			} else if p.deleted && p.resurrected {
+				r.fail("pipe-deleted-pipe-listed-after-restart", fmt.Sprintf("pipe %s was deleted, the server was restarted cleanly, and the pipe is listed again", p.def.Name))
 			}
 		}
 		// what the destination gained since this pipe was created (a re-created pipe finds the events of its predecessors)
@@ -2601,6 +2647,48 @@ func genHeld(r *Rng) *Scenario {
 	return sc
 }
 
+// every pipe of the server is deleted (no sentinel pipe: the registry becomes empty), clean restart, matching writes
+func genDeleteAll(r *Rng) *Scenario {
+	g := &gen{r: r, ts: int64(r.Range(0, 1000))}
+	sc := &Scenario{Stream: "delete-all", Chunk: 1 << 20, NoBarrier: true}
+	ns := r.Range(1, 3)
+	sc.Sources = mkSources(r, ns)
+	np := r.Range(1, 2)
+	for i := 0; i < np; i++ {
+		pd := mkPipe(r, sc.Sources, "")
+		pd.NameKind = r.PickStr("", "", "us", "mix")
+		pd.Name = pipeNameOf(pd.NameKind)
+		sc.Pipes = append(sc.Pipes, pd)
+		sc.Steps = append(sc.Steps, Step{Kind: "create", Pipe: i})
+	}
+	// sequential, notify-first waves only: nothing drains the notification channel for the harness here
+	wave := func() Step {
+		st := genWave(g, r, ns, false, true, nil)
+		st.FlushFirst = false
+		return st
+	}
+	for w := 0; w < r.Range(1, 2); w++ {
+		sc.Steps = append(sc.Steps, wave())
+	}
+	if r.Chance(1, 3) {
+		sc.Steps = append(sc.Steps, Step{Kind: "restart"}, wave())
+	}
+	for _, i := range r.Perm(np) {
+		sc.Steps = append(sc.Steps, Step{Kind: "delete", Pipe: i})
+		if r.Chance(1, 3) {
+			sc.Steps = append(sc.Steps, wave())
+		}
+	}
+	for c := 0; c < r.Range(1, 2); c++ {
+		sc.Steps = append(sc.Steps, Step{Kind: "restart"})
+		if r.Chance(1, 2) {
+			sc.Steps = append(sc.Steps, Step{Kind: "admin", Pipe: 0})
+		}
+		sc.Steps = append(sc.Steps, wave())
+	}
+	return sc
+}
+
 // a burst: far more writers than the WriteEvent channel holds send at once (the notificatior stands at the pipe's lock);
 // most of them write the first events of a partition the pipe has not seen
 func genBurst(r *Rng) *Scenario {
@@ -3004,11 +3092,17 @@ func corpus() []*Scenario {
 			{Kind: "wave", Batches: []Batch{{Src: 0, Evs: []Ev{{Ts: 1, Msg: "a"}, {Ts: 2, Msg: "b"}}}}},
 			{Kind: "wave", FlushFirst: true, Batches: []Batch{{Src: 0, Evs: []Ev{{Ts: 3, Msg: "c"}}}}},
 			{Kind: "restart"},
-			{Kind: "wave", Batches: []Batch{{Src: 0, Evs: []Ev{{Ts: 4, Msg: "d"}}}}}}}
+			{Kind: "wave", Batches: []Batch{{Src: 0, Evs: []Ev{{Ts: 4, Msg: "d"}}}}},
+			// the only pipe is deleted (the registry becomes empty), clean restart, a matching write: nothing is copied,
+			// nothing is listed (witness of C10_deleted_pipe_back_refuted)
+			{Kind: "delete"}, {Kind: "restart"},
+			{Kind: "wave", Batches: []Batch{{Src: 0, Evs: []Ev{{Ts: 5, Msg: "e"}}}}},
+			{Kind: "restart"},
+			{Kind: "wave", Batches: []Batch{{Src: 0, Evs: []Ev{{Ts: 6, Msg: "f"}}}}}}}
 	return []*Scenario{flt, race, held, refused, edge, single}
 }
 
-const rule = "end-to-end scenarios on an in-process server: 1-4 source partitions (unique sid tag), 1-3 pipes over four source-condition shapes, waves of 1-3 batches of 1-13 events per source (chunk size 300-2000 bytes in half of the scenarios so that batches straddle roll-overs), pipe creation before/after existing history, a second pipe created mid-history, DELETE PIPE with a control pipe, clean restart, two first writers with inverted notifications (schedule hook), concurrent writers on known sources, worker idle time-out with a write shortly before it, DELETE PIPE + CREATE PIPE again under the same name (names with '_', '/', ':', '.', '-', upper case; events before, between and after; one case per epoch), the same with DELETE PIPE while a worker of the pipe is held between its journal write and saveState (schedule point in ppipe.saveState), TRUNCATE of a fully copied source under live pipes (chunks only while something holds the partition; the partition itself right after a restart, then the pipes cleaner -- a second one with a period of milliseconds -- drops the descriptor and later writes go to a new partition), a record whose copy with the provenance fields exceeds MaxRecordSize (the destination refuses it every time; with clean restarts while the worker sleeps between attempts), a burst of 115-140 concurrent writers (most of them first writers of their partition) whose WriteEvents outnumber the channel's 100 slots while the notificatior stands at the pipe's lock, registry operations that must be refused (second CREATE PIPE of a live name, conditions that do not compile, DELETE PIPE of an unknown name) or answered (DESCRIBE PIPE, list of pipes), requests refused half-way on a server with a small MaxRecordSize (the stored prefix counts as written; mostly the first write to a source since the pipe exists); one case per (pipe epoch, source); non-trivial iff the source matches the pipe and either a notification reached the pipe while it already knew the source (worker charged), or a restart/delete/re-creation/race/re-arm step was taken; distinct by scenario/pipe/source"
+const rule = "end-to-end scenarios on an in-process server: 1-4 source partitions (unique sid tag), 1-3 pipes over four source-condition shapes, waves of 1-3 batches of 1-13 events per source (chunk size 300-2000 bytes in half of the scenarios so that batches straddle roll-overs), pipe creation before/after existing history, a second pipe created mid-history, DELETE PIPE with a control pipe, clean restart, two first writers with inverted notifications (schedule hook), concurrent writers on known sources, worker idle time-out with a write shortly before it, DELETE PIPE + CREATE PIPE again under the same name (names with '_', '/', ':', '.', '-', upper case; events before, between and after; one case per epoch), the same with DELETE PIPE while a worker of the pipe is held between its journal write and saveState (schedule point in ppipe.saveState), TRUNCATE of a fully copied source under live pipes (chunks only while something holds the partition; the partition itself right after a restart, then the pipes cleaner -- a second one with a period of milliseconds -- drops the descriptor and later writes go to a new partition), a record whose copy with the provenance fields exceeds MaxRecordSize (the destination refuses it every time; with clean restarts while the worker sleeps between attempts), deletion of EVERY pipe of a server without the harness's sentinel pipe followed by clean restarts and matching writes, a burst of 115-140 concurrent writers (most of them first writers of their partition) whose WriteEvents outnumber the channel's 100 slots while the notificatior stands at the pipe's lock, registry operations that must be refused (second CREATE PIPE of a live name, conditions that do not compile, DELETE PIPE of an unknown name) or answered (DESCRIBE PIPE, list of pipes), requests refused half-way on a server with a small MaxRecordSize (the stored prefix counts as written; mostly the first write to a source since the pipe exists); one case per (pipe epoch, source); non-trivial iff the source matches the pipe and either a notification reached the pipe while it already knew the source (worker charged), or a restart/delete/re-creation/race/re-arm step was taken; distinct by scenario/pipe/source"
 
 // closeFdPool: the journal controller of the range library has no shutdown, so the reader file descriptors pooled by
 // a stopped server stay open for the life of the process (about 25 per scenario; a thorough run starts thousands of
@@ -3143,6 +3237,9 @@ func main() {
 		}
 		for i := 0; i < c.N(2); i++ {
 			jobs = append(jobs, genBurst(c.Rng.Fork()))
+		}
+		for i := 0; i < c.N(6); i++ {
+			jobs = append(jobs, genDeleteAll(c.Rng.Fork()))
 		}
 		results := make([][]Case, len(jobs))
 		errs := make([]error, len(jobs))
